@@ -211,6 +211,11 @@ def scenario(B, case):
             B.require_structural({id(m) for m in nb.members} <= {id(m) for m in pb.members},
                                  f"C20: {act} on the single subsystem {name(t)} enlarged its block "
                                  f"{[name(m) for m in pb.members]} -> {[name(m) for m in nb.members]}")
+            if len(ts) == 1 and act in ("op", "op-ce", "resize", "expand"):
+                # ... and does not move it into a NEW composite product space (own state / combined envelope stay where they are)
+                B.require_structural(not (nb.kind == "ps" and pb.kind != "ps"),
+                                     f"C20: {act} on the single subsystem {name(t)} created a composite product space "
+                                     f"{[name(m) for m in nb.members]} out of its {pb.kind} block")
     if act.startswith("measure"):
         for t in alive:
             nb = post.block_of(t)
